@@ -104,7 +104,9 @@ type configIn struct {
 }
 
 type input struct {
-	Kind     string      `json:"kind,omitempty"` // "" (series query) | part
+	Kind     string      `json:"kind,omitempty"`     // "" (series query history) | part | lazy
+	Ratio    [4]int64    `json:"ratio,omitempty"`    // lazy: series match ratio num/den, max key/series ratio num/den (dyadic, so float arithmetic is exact)
+	EstSize  uint64      `json:"est_size,omitempty"` // lazy: estimated max series size (0: from meta.json)
 	MaxGap   uint64      `json:"part_max_gap,omitempty"`
 	Ranges   [][2]uint64 `json:"ranges,omitempty"`
 	Series   []seriesIn  `json:"series"`
@@ -484,6 +486,9 @@ func run(raw json.RawMessage) (common.Case, error) {
 	if in.Kind == "part" {
 		return runPart(in)
 	}
+	if in.Kind == "lazy" {
+		return runLazy(in)
+	}
 	bb, err := buildBlock(in)
 	if err != nil {
 		return c, err
@@ -606,6 +611,172 @@ func run(raw json.RawMessage) (common.Case, error) {
 	}
 	c.Class = fmt.Sprintf("matchers=%d/selected=%s/%s", len(in.Matchers), selBucket(maxOracle, len(bb.series)), hk)
 	return c, nil
+}
+
+func newStore(bb *builtBlock, cfg configIn, dir string) (*store.BucketStore, error) {
+	insBkt := objstore.WithNoopInstr(bb.bkt)
+	lister := block.NewConcurrentLister(log.NewNopLogger(), insBkt)
+	fetcher, err := block.NewMetaFetcher(log.NewNopLogger(), 2, insBkt, lister, dir, nil, nil)
+	if err != nil {
+		return nil, err
+	}
+	opts := []store.BucketStoreOption{
+		store.WithLazyExpandedPostings(cfg.Lazy),
+		store.WithSeriesBatchSize(cfg.BatchSize),
+	}
+	if cfg.Lazy {
+		opts = append(opts, store.WithSeriesMatchRatio(cfg.MatchRatio), store.WithPostingGroupMaxKeySeriesRatio(cfg.KeyRatio))
+	}
+	if cfg.EstSeries > 0 {
+		est := cfg.EstSeries
+		opts = append(opts, store.WithBlockEstimatedMaxSeriesFunc(func(_ metadata.Meta) uint64 { return est }))
+	}
+	if cfg.IndexCache {
+		ic, err := storecache.NewInMemoryIndexCacheWithConfig(log.NewNopLogger(), nil, nil, storecache.InMemoryIndexCacheConfig{MaxSize: 1 << 24, MaxItemSize: 1 << 20})
+		if err != nil {
+			return nil, err
+		}
+		opts = append(opts, store.WithIndexCache(ic))
+	}
+	st, err := store.NewBucketStore(insBkt, fetcher, dir,
+		store.NewChunksLimiterFactory(0), store.NewSeriesLimiterFactory(0), store.NewBytesLimiterFactory(0),
+		store.NewGapBasedPartitioner(cfg.MaxGap), 2, cfg.Sampling, true, false, time.Minute, opts...)
+	if err != nil {
+		return nil, err
+	}
+	if err := st.SyncBlocks(context.Background()); err != nil {
+		st.Close()
+		return nil, err
+	}
+	return st, nil
+}
+
+func matcherCoq(bb *builtBlock, m matcherIn, pm *labels.Matcher) string {
+	var matched []string
+	for _, v := range append([]string{""}, bb.lvals[m.Name]...) {
+		if pm.Matches(v) {
+			matched = append(matched, v)
+		}
+	}
+	ctor := map[string]string{"=": "MEq", "!=": "MNeq", "=~": "MRe", "!~": "MNre"}[m.Type]
+	return common.App("mk_matcher", ctor, common.Bytes(m.Name), common.Bytes(m.Value), strListCoq(pm.SetMatches()), strListCoq(matched))
+}
+
+// the lazy-marking heuristic: real matchersToPostingGroups and the real marking made by
+// ExpandedPostings (through the verif export shim) against the model
+func runLazy(in input) (common.Case, error) {
+	var c common.Case
+	c.Class = "lazy"
+	bb, err := buildBlock(in)
+	if err != nil {
+		return c, err
+	}
+	if in.Ratio[1] <= 0 || in.Ratio[3] <= 0 {
+		return c, fmt.Errorf("ratio denominators must be positive")
+	}
+	cfg := configIn{Lazy: true, BatchSize: 10000, Sampling: 32, MaxGap: 512 * 1024, EstSeries: in.EstSize,
+		MatchRatio: float64(in.Ratio[0]) / float64(in.Ratio[1]), KeyRatio: float64(in.Ratio[2]) / float64(in.Ratio[3])}
+	dir, err := os.MkdirTemp("", "c10-store-")
+	if err != nil {
+		return c, err
+	}
+	defer os.RemoveAll(dir)
+	st, err := newStore(bb, cfg, dir)
+	if err != nil {
+		return c, err
+	}
+	defer st.Close()
+	ext := labels.FromStrings(in.Ext...)
+	var pms []*labels.Matcher
+	var msCoq []string
+	for _, m := range in.Matchers {
+		pt, _, err := mtype(m.Type)
+		if err != nil {
+			return c, err
+		}
+		pm, err := labels.NewMatcher(pt, m.Name, m.Value)
+		if err != nil {
+			return c, err
+		}
+		if ext.Get(m.Name) != "" {
+			return c, fmt.Errorf("lazy inputs must not have matchers on external labels")
+		}
+		pms = append(pms, pm)
+		msCoq = append(msCoq, matcherCoq(bb, m, pm))
+	}
+	ctx := context.Background()
+	groups, ok, err := st.VerifC10PostingGroups(ctx, pms)
+	if err != nil {
+		return c, err
+	}
+	lazyNames, postings, size, err := st.VerifC10LazyMatchers(ctx, pms)
+	if err != nil {
+		return c, err
+	}
+	gsCoq := common.None
+	addEager := !ok
+	if ok {
+		var gl []string
+		anyAdd := false
+		for _, g := range groups {
+			gl = append(gl, fmt.Sprintf("{| g_name := %s; g_all := %s; g_add := %s; g_rem := %s |}", common.Bytes(g.Name), common.Bool(g.AddAll), strListCoq(g.AddKeys), strListCoq(g.RemoveKeys)))
+			isLazy := false
+			for _, n := range lazyNames {
+				isLazy = isLazy || n == g.Name
+			}
+			if len(g.AddKeys) > 0 {
+				anyAdd = true
+				if !isLazy {
+					addEager = true
+				}
+			}
+		}
+		if !anyAdd {
+			addEager = true
+		}
+		gsCoq = common.Some(common.List(gl))
+	}
+	if !addEager {
+		c.GoPred, c.Sig = "every posting group with add keys was marked lazy", "lazy-marks-all-add-groups"
+	}
+	var idx []string
+	for _, s := range bb.series {
+		idx = append(idx, common.Pair(lsCoq(lsetStrings(s.lset)), chunksCoq(s.chks)))
+	}
+	c.Coq = common.App("CLazy", common.List(idx), common.List(msCoq), common.Z(int64(size)),
+		common.Z(in.Ratio[0]), common.Z(in.Ratio[1]), common.Z(in.Ratio[2]), common.Z(in.Ratio[3]),
+		gsCoq, strListCoq(lazyNames), common.Z(int64(postings)))
+	c.Obs = map[string]any{"groups": groups, "lazy": lazyNames, "postings": postings, "series_size": size}
+	c.Nontrivial = len(lazyNames) > 0
+	c.Class = fmt.Sprintf("lazy/groups=%d/marked=%d", len(groups), len(lazyNames))
+	return c, nil
+}
+
+func genLazy(r *rand.Rand, series []seriesIn, ext []string) input {
+	in := input{Kind: "lazy", Series: series, Ext: ext}
+	for {
+		in.Matchers = nil
+		for _, m := range genMatchers(r, series, ext) {
+			if m.Name != ext[0] {
+				in.Matchers = append(in.Matchers, m)
+			}
+		}
+		if r.Intn(2) == 0 { // broad matchers on several labels: several groups with many keys
+			for _, n := range []string{"__name__", "a", "b"} {
+				if r.Intn(3) > 0 {
+					in.Matchers = append(in.Matchers, matcherIn{Type: common.Pick(r, "!=", "=~", "!~", "!="), Name: n, Value: common.Pick(r, "", ".+", "nope|", "a0", "x.*")})
+				}
+			}
+		}
+		if len(in.Matchers) > 0 {
+			break
+		}
+	}
+	mr := common.Pick(r, [2]int64{1, 2}, [2]int64{1, 4}, [2]int64{1, 1}, [2]int64{1, 8}, [2]int64{3, 4}, [2]int64{1, 1024})
+	kr := common.Pick(r, [2]int64{0, 1}, [2]int64{0, 1}, [2]int64{1, 2}, [2]int64{2, 1}, [2]int64{100, 1}, [2]int64{1, 4})
+	in.Ratio = [4]int64{mr[0], mr[1], kr[0], kr[1]}
+	in.EstSize = common.Pick(r, uint64(0), 1, 1, 2, 8, 1000)
+	return in
 }
 
 // gapBasedPartitioner.Partition on sorted ranges
@@ -897,6 +1068,9 @@ func gen(r *rand.Rand, tier string, n int) []any {
 			out = append(out, genPart(r))
 		}
 		series, ext := genBlock(r, tier)
+		for q := 0; q < 2 && len(out) < n; q++ {
+			out = append(out, genLazy(r, series, ext))
+		}
 		perBlock := 6
 		for q := 0; q < perBlock && len(out) < n; q++ {
 			in := input{Series: series, Ext: ext}
